@@ -1,0 +1,49 @@
+//go:build verif
+
+// Contracts for package streamwriter (comment-only; read by /verif/govc).
+// frame.Spec* / frame.Uf* are ghost functions that exist only in the
+// verification overlay of package frame.
+
+package streamwriter
+
+//@ func (*Writer).Initialize
+//@   requires w != nil
+//@   ensures  [refusals] (err != nil) == (old(w.Version) == 0 || old(w.SystemID) < 1 || (w.Key != nil && old(w.Version) != V2))
+//@   ensures  [component-default] err == nil ==> (old(w.ComponentID) < 1 ==> w.ComponentID == 1) && (old(w.ComponentID) >= 1 ==> w.ComponentID == old(w.ComponentID))
+//@   canary   err != nil
+//@   modifies w.ComponentID
+
+//@ func (*Writer).Write
+//@   let inD = (w.FrameWriter.DialectRW != nil && frame.UfDialectHas(w.FrameWriter.DialectRW, msg.GetID()))
+//@   requires w != nil && frame.SpecWriterReady(w.FrameWriter)
+//@   requires w.Version == V1 || w.Version == V2
+//@   requires w.Key != nil ==> w.Version == V2
+//@   requires msg != nil && frame.SpecIsRaw(msg) ==> len(msg.(*message.MessageRaw).Payload) <= 255
+//@   ensures  [nil-message] msg == nil ==> err != nil && logLen() == 0
+//@   ensures  [not-in-dialect] msg != nil && !inD ==> err != nil && logLen() == 0
+//@   ensures  [v1-big-id] w.Version == V1 && msg != nil && msg.GetID() > 255 ==> err != nil && logLen() == 0
+//@   ensures  [at-most-one] logLen() <= 1
+//@   ensures  [seq-accepted] err == nil ==> logLen() == 1 && w.nextSeqNumber == old(w.nextSeqNumber) + 1
+//@   ensures  [seq-refused] logLen() == 0 ==> err != nil && w.nextSeqNumber == old(w.nextSeqNumber)
+//@   modifies frame.SpecWriterBuf(w.FrameWriter)[:], w.nextSeqNumber, ghost:log
+
+//@ func (*Writer).writeInner
+//@   let msg0 = old(frame.SpecFrameMessage(fr))
+//@   let inD  = (w.FrameWriter.DialectRW != nil && frame.UfDialectHas(w.FrameWriter.DialectRW, old(frame.SpecFrameMessage(fr).GetID())))
+//@   requires w != nil && frame.SpecWriterReady(w.FrameWriter) && fr != nil
+//@   requires frame.SpecFrameMessage(fr) != nil && frame.SpecIsRaw(frame.SpecFrameMessage(fr)) ==>
+//@              len(frame.SpecFrameMessage(fr).(*message.MessageRaw).Payload) <= 255
+//@   requires w.Key != nil ==> frame.SpecIsV2(fr)
+//@   ensures  [nil-message] msg0 == nil ==> err != nil && logLen() == 0
+//@   ensures  [not-in-dialect] msg0 != nil && !inD ==> err != nil && logLen() == 0
+//@   ensures  [at-most-one] logLen() <= 1
+//@   ensures  [emitted-layout] logLen() == 1 ==> logN(0) == frame.SpecFrameLen(fr) &&
+//@              (forall j int :: 0 <= j && j < frame.SpecFrameLen(fr) ==> logByte(0, j) == frame.SpecFrameWire(fr, j))
+//@   ensures  [emitted-header] logLen() == 1 ==> frame.SpecOriginHeader(fr, old(w.nextSeqNumber), w.SystemID, w.ComponentID, w.Key != nil)
+//@   ensures  [emitted-checksum] logLen() == 1 ==> frame.SpecChecksumOK(fr, frame.UfDialectExtra(w.FrameWriter.DialectRW, msg0.GetID()))
+//@   ensures  [emitted-signature] logLen() == 1 && w.Key != nil ==>
+//@              frame.SpecSigBlock(fr, w.SignatureLinkID, uint64(sinceNanos())/10000) && sinceRefIs2015() && frame.SpecSignatureOK(fr, w.Key)
+//@   ensures  [seq-accepted] err == nil ==> logLen() == 1 && w.nextSeqNumber == old(w.nextSeqNumber) + 1
+//@   ensures  [seq-refused] logLen() == 0 ==> err != nil && w.nextSeqNumber == old(w.nextSeqNumber)
+//@   ensures  [v1-big-id] !frame.SpecIsV2(fr) && msg0 != nil && msg0.GetID() > 255 ==> err != nil && logLen() == 0
+//@   modifies frame.SpecWriterBuf(w.FrameWriter)[:], w.nextSeqNumber, ghost:log, *fr
